@@ -255,7 +255,48 @@ fn crafted_shapes<V: Fv>(ctx: &Ctx, rep: &mut Report) {
     }
 }
 
+/// MESSAGE-LENGTH sweep in both directions with one key: every length 3968..=4224 and every 61st
+/// length up to 20000: own signature -> reference verifier, reference signature -> verify here.
+fn length_sweep<V: Fv>(ctx: &Ctx, rep: &mut Report) {
+    let (keys, _) = crate::pool::keys::<V>(ctx.seed, "c16-len", 1);
+    let k = match keys.first() {
+        Some(k) => k,
+        None => return,
+    };
+    let (skb, pkb) = (V::sk_to_bytes(&k.sk), V::pk_to_bytes(&k.pk));
+    let base: Vec<u8> = (0..20_000usize).map(|i| (i * 131 + 7) as u8).collect();
+    let mut lens: Vec<usize> = (3968..=4224).collect();
+    lens.extend((0..20_000).step_by(61));
+    lens.extend([0usize, 1, 95, 96, 135, 136, 137, 4095, 4096, 4097, 8191, 8192, 8193, 16383, 16384, 16385]);
+    let r = par_for(lens.len(), ncpu(), |i, rep| {
+        let msg = &base[..lens[i]];
+        rep.evaluations += 1;
+        if let Ok(sb) = monitored(|| V::sig_to_bytes(&V::sign(msg, &k.sk))) {
+            match V::pq_verify(&reframe_to_pq(&sb, V::LOGN), msg, &pkb) {
+                Some(true) => rep.count("length_sweep_own_sig_accepted_by_reference", 1),
+                other => rep.violation("interop:reference-rejects-own-signature", format!("{}: PQClean result {:?} for a falcon-rust signature on a message of {} bytes", V::NAME, other, msg.len()), json!({"variant": V::NAME, "dir": "own-sig", "seed": hex(&k.seed), "msg": format!("len:{}", msg.len()), "sig": hex(&sb)})),
+            }
+        }
+        if i % 4 == 0 {
+            if let Some(ds) = V::pq_sign(msg, &skb) {
+                if ds.len() >= 42 {
+                    let ok = reframe_from_pq(&ds, V::LOGN, V::SIG_LEN).and_then(|b| V::sig_from_bytes(&b).ok()).map(|s| monitored(|| V::verify(msg, &s, &k.pk)).unwrap_or(false)).unwrap_or(false);
+                    if ok {
+                        rep.count("length_sweep_reference_sig_accepted", 1);
+                    } else {
+                        rep.violation("interop:reference-signature-rejected", format!("{}: a PQClean signature (exported key) on a message of {} bytes is rejected by falcon-rust", V::NAME, msg.len()), json!({"variant": V::NAME, "dir": "ref-sig-own-key", "seed": hex(&k.seed), "msg": format!("len:{}", msg.len()), "refsig": hex(&ds)}));
+                    }
+                }
+            }
+        }
+    });
+    rep.merge(r);
+}
+
 pub fn interop(ctx: &Ctx, rep: &mut Report) {
+    length_sweep::<F512>(ctx, rep);
+    length_sweep::<F1024>(ctx, rep);
+    rep.require("length_sweep_own_sig_accepted_by_reference", 500);
     crafted_shapes::<F512>(ctx, rep);
     crafted_shapes::<F1024>(ctx, rep);
     rep.require("crafted_shapes_agreeing_with_reference", 8);
